@@ -1,6 +1,9 @@
 package sargon
 
 import (
+	"math"
+
+	"github.com/herohde/morlock/pkg/eval"
 	"context"
 
 	"github.com/herohde/morlock/pkg/board"
@@ -46,4 +49,32 @@ func Harness_C20_SkipUnderPromotions() {
 	q := m
 	q.Promotion = board.Queen
 	verifAssert(pick(q), "of the four promotions of a pawn the queen promotion is always kept: the filter never empties a non-empty move list")
+}
+
+// ---- SARGON points: finite for bounded material and board-control terms ----
+// BoardControl and Material (sums of small per-piece terms) are replaced by arbitrary bounded
+// values, the root baseline is an arbitrary bounded value; the real Points.Evaluate combines them.
+var specBrdc, specMtrl eval.Pawns
+var specPtschk bool
+
+func specBoardControl(ctx context.Context, b *board.Board, pins Pins) eval.Pawns { return specBrdc }
+func specSargonMaterial(ctx context.Context, b *board.Board, pins Pins) (eval.Pawns, bool) {
+	return specMtrl, specPtschk
+}
+
+func Harness_C20_SargonPointsFinite() {
+	specBrdc = eval.Pawns(nondetF32("brdc"))
+	specMtrl = eval.Pawns(nondetF32("mtrl"))
+	base := eval.Pawns(nondetF32("brdc0"))
+	verifAssume(specBrdc >= -10000 && specBrdc <= 10000 && specMtrl >= -10000 && specMtrl <= 10000 && base >= -10000 && base <= 10000)
+	specPtschk = nondetBool("ptschk")
+	p := &Points{side0: board.Color(nondetU8("side0") & 1), brdc0: base}
+	pos, turn, np, fm, err := fen.Decode(fen.Initial)
+	if err != nil {
+		panic("bad position")
+	}
+	b := board.NewBoard(board.NewZobristTable(1), pos, turn, np, fm)
+	verifReach("sargon-points")
+	v := float64(p.Evaluate(context.Background(), b))
+	verifAssert(!math.IsNaN(v) && !math.IsInf(v, 0) && v <= 50107 && v >= -50107, "the SARGON evaluation is a finite number")
 }
